@@ -11,6 +11,6 @@ DROPPED = ["floating-point rounding (float64/complex128 exact; astype(complex64/
 ASSUME = ["h1 symmetric per spin, every Cholesky matrix symmetric, ci2 symmetric (restricted CISD) / antisymmetric same-spin (UCISD, GCISD): imposed by construction a + a^T etc. from free symbols",
           "UCISD/ucisd mo_coeff[1] and GCISD mo_coeff: exact rational orthogonal matrices (products of Pythagorean Givens rotations) and identity; plus the symbolic reduction lemma ov.mob",
           "RHF, restricted CISD kinds: spin-independent h1 (the statement lists them as such); restricted entry points see the average",
-          "symbol domains of the trial parameters: rhf / uhf / ghf orbitals and NOCI determinants are COMPLEX (Wirtinger pairs, bra = conjugated coefficients); NOCI coefficients, "
+          "symbol domains of the trial parameters: rhf / uhf / ghf orbitals are COMPLEX (Wirtinger pairs, bra = conjugated coefficients); NOCI determinants and coefficients are REAL (the class documents them as such), "
           "multi-Slater coefficients and CI amplitudes (ci1, ci2) are REAL symbols - the code multiplies them unconjugated (they are coefficients of the bra) and casts some to float32; "
           "ghf_cpmc / uhf_cpmc trials are real (constrained path)"]
